@@ -248,6 +248,8 @@ VARIANTS = [
     V("unknown labels refused for one reduced axis only", ("C08", "C12"), "R-PARTIALUNKNOWN", "core.py", '    if nax < by_.ndim and expected_ is None:', '    if nax == 1 and by_.ndim > 1 and expected_ is None:', must_mention="two of three"),
     V("twin: partial-axis test written as an inequality of the two counts", ("C08", "C12"), "", "core.py", '    if nax < by_.ndim and expected_ is None:', '    if expected_ is None and nax != by_.ndim:', expect="silent"),
     V("blockwise label lists taken from the cohort map instead of the blocks", ("C18", "C16"), "R-BLOCKLABELS", "core.py", '            groups_in_block = tuple(labels_of(by_input[slc]) for slc in slices)', '            groups_in_block = tuple(labels_of(by_input[slc]) for slc in slices)\n            if chunks_cohorts and len(chunks_cohorts) == len(groups_in_block):\n                groups_in_block = tuple(np.asarray(c) for c in chunks_cohorts.values())', must_mention="mapping"),
+    V("variance finalizer does not clamp its difference of squares", ("C02", "C04"), "R-NANFINAL", "aggregations.py", '    result = np.maximum(result, 0)\n', '', must_mention="negative"),
+    V("twin: variance finalizer clamps with np.clip", ("C02", "C04"), "", "aggregations.py", '    result = np.maximum(result, 0)\n', '    result = np.clip(result, 0, None)\n', expect="silent"),
     V("dtype promotion memoised with an untyped key", ("C14",), "R-MEMO", "xrdtypes.py", '        dtype = np.result_type(dtype, fill_value)\n    return dtype\n',
       '        dtype = _promote_for_fill_value(dtype, fill_value)\n    return dtype\n\n\n@functools.lru_cache\ndef _promote_for_fill_value(dtype: np.dtype, fill_value) -> np.dtype:\n    return np.result_type(dtype, fill_value)\n', must_mention="typed"),
     V("twin: dtype promotion memoised with typed=True", ("C14",), "", "xrdtypes.py", '        dtype = np.result_type(dtype, fill_value)\n    return dtype\n',
